@@ -8,7 +8,7 @@ import (
 
 func TestFanOutTypes(t *testing.T) {
 	r := New(1)
-	for v := 0; v < 5; v++ {
+	for v := 0; v < 7; v++ {
 		for i := 0; i < 20; i++ {
 			s := FanOut(r, nil, "a", v)
 			if _, err := spec.Eval(s, nil); err != nil {
